@@ -237,7 +237,10 @@ def file_text(path, kind, rnd, extra=True, n_before=None):
     m = f" -- F{path}"
     recs = []
     def ok_rec():
-        c = rnd.randint(0, 4) if extra else 0
+        c = rnd.randint(0, 5) if extra else 0
+        if c == 5:
+            # unequal run times: completion order differs from file order in parallel mode
+            return f"statement ok\nslow {rnd.choice([5, 20, 60, 120])} x{m}\n"
         if c == 0:
             return f"statement ok\nins {rnd.randint(1, 99)}{m}\n"
         if c == 1:
@@ -351,7 +354,7 @@ def cli_run_set(cwd, files, kinds, jobs, fail_fast, keep, rnd, sigint_at=0, late
     return r, tags, ju, evs, cause, oracle
 
 
-def write_set(cwd, n, rnd, kinds_pool):
+def write_set(cwd, n, rnd, kinds_pool, shadows=False):
     os.makedirs(os.path.join(cwd, "t"), exist_ok=True)
     files, kinds = [], {}
     for i in range(n):
@@ -360,6 +363,14 @@ def write_set(cwd, n, rnd, kinds_pool):
         open(os.path.join(cwd, f), "w").write(file_text(f, k, rnd))
         files.append(f)
         kinds[f] = k
+        if shadows and rnd.random() < 0.35:
+            # a second file whose test-case name has the first one's as a proper prefix
+            # (t/f03.slt -> t_f03_slt, t/f03.slt-2.slt -> t_f03_slt_2_slt), with its own outcome
+            g = f + rnd.choice(["-2.slt", ".bak.slt", "_.slt"])
+            k2 = rnd.choice(kinds_pool) if rnd.random() < 0.4 else "pass"
+            open(os.path.join(cwd, g), "w").write(file_text(g, k2, rnd))
+            files.append(g)
+            kinds[g] = k2
     files.sort()   # glob order
     return files, kinds
 
@@ -383,6 +394,14 @@ def profile_cli16(rnd, n, thorough, out):
                 out.add(f"serial {1 if ff else 0} {len(files)} " + " ".join(GROUND[kinds[f]] for f in files), impl, tag, None)
             out.add(climon_case(jobs, False, r.exit, cause, files, kinds, tags, ju, evs), "accept", tag,
                     ("C16|" + oracle) if oracle else None)
+        # a cancelled file makes the exit status non-zero: Ctrl-C while the LAST file is running
+        if all(kinds[f] == "pass" for f in files):
+            r0 = cli_run_set(cwd, files, kinds, 0, False, False, rnd, latency=0)[0]
+            nreq = len([e for e in r0.events if e["ev"] == "sql"])
+            if nreq:
+                r, tags, ju, evs, cause, oracle = cli_run_set(cwd, files, kinds, 0, False, False, rnd, sigint_at=nreq, latency=150)
+                out.add(climon_case(0, False, r.exit, True, files, kinds, tags, ju, evs), "accept",
+                        f"cli16 set={si} serial sigint during the last file", ("C16|" + oracle) if oracle else None)
         shutil.rmtree(cwd, ignore_errors=True)
 
 
@@ -391,9 +410,10 @@ def profile_cli17(rnd, n, thorough, out):
         cwd = fresh_dir(f"c17_{si}")
         nfiles = rnd.randint(1, 10)
         pool = rnd.choice([["pass"], ["pass", "pass", "fail"], ["pass", "fail", "die", "parse"]])
-        files, kinds = write_set(cwd, nfiles, rnd, pool)
-        for _ in range(2 if not thorough else 4):
-            jobs = rnd.randint(1, 8)
+        files, kinds = write_set(cwd, nfiles, rnd, pool, shadows=True)
+        for ri in range(2 if not thorough else 4):
+            # every job count 1..8 is visited in turn (jobs = 1 is a parallel run like any other)
+            jobs = 1 + (2 * si + ri) % 8 if ri < 2 else rnd.randint(1, 8)
             keep = rnd.random() < 0.5
             lat = rnd.choice([0, 3, 10, 30])
             r, tags, ju, evs, cause, oracle = cli_run_set(cwd, files, kinds, jobs, False, keep, rnd, latency=lat)
@@ -418,7 +438,7 @@ def traffic_files(r, files):
 def profile_cli19(rnd, n, thorough, out):
     for si in range(n):
         cwd = fresh_dir(f"c19_{si}")
-        jobs = [0, 2, 0, 2, 3][si % 5]
+        jobs = [0, 3, 2, 0, 3][si % 5]
         nfiles = rnd.randint(3, 5) if jobs == 0 else rnd.randint(5, 6)
         os.makedirs(os.path.join(cwd, "t"), exist_ok=True)
         files = sorted(f"t/f{i:02d}.slt" for i in range(nfiles))
@@ -467,7 +487,9 @@ def profile_cli19(rnd, n, thorough, out):
             kinds2 = {f: ("fail" if i == pos else "pass") for i, f in enumerate(files)}
             for i, f in enumerate(files):
                 open(os.path.join(cwd, f), "w").write(
-                    file_text(f, kinds2[f], rnd, extra=False, n_before=(0 if i == pos else 2)))
+                    # the other files run for different times (180, 240, 300 ms), all much longer than
+                    # the failing one (60 ms)
+                    file_text(f, kinds2[f], rnd, extra=False, n_before=(0 if i == pos else 2 + i % 3)))
             r, tags, ju, evs, cause, oracle = cli_run_set(cwd, files, kinds2, jobs, True, False, rnd, latency=(60 if jobs else 0))
             tag = f"cli19 set={si} jobs={jobs} failfast first-failure-at={pos}"
             if oracle is None and r.exit == 0:
